@@ -10,6 +10,7 @@ recognised raises TranslateError.
 from __future__ import annotations
 
 import ast
+import re
 from typing import Optional
 
 from harness.common import TranslateError, ast_digest, src_text
@@ -244,17 +245,50 @@ class ClassInfo:
 
 
 # ---------------------------------------------------------------------------------------------- argument classification
+SHALLOW_BUILDERS = ('attrs.evolve', 'attr.evolve', 'copy.copy', 'dataclasses.replace')
+
+
+def src_reads(e: ast.AST, src: str, env: dict[str, ast.expr], _depth: int = 0) -> list[str]:
+    """The fields of the source object (`<src>.X`) an expression reads, local names resolved through `env`
+    (ordered, without duplicates).  This is what decides FROM WHICH field a field of the copy is built."""
+    if _depth > 8:
+        raise TranslateError('src_reads: local-name resolution too deep')
+    out: list[str] = []
+    for n in ast.walk(e):
+        f = _self_attr(n, src)
+        if f is not None and f not in out:
+            out.append(f)
+        elif isinstance(n, ast.Name) and n.id in env and n.id != src:
+            for g in src_reads(env[n.id], src, {k: v for k, v in env.items() if k != n.id}, _depth + 1):
+                if g not in out:
+                    out.append(g)
+    return out
+
+
+def elem_class(ann: Optional[str]) -> Optional[str]:
+    """Element class of a container annotation: list[X] / Optional[list[X]] / dict[K, X] / list['X']."""
+    if not ann:
+        return None
+    a = ann.replace("'", '').replace('"', '').replace(' ', '')
+    m = re.fullmatch(r'(?:Optional\[)?(?:list|List|set|Set)\[(\w+)\]\]?', a) or \
+        re.fullmatch(r'(?:Optional\[)?(?:dict|Dict)\[\w+,(\w+)\]\]?', a)
+    return m.group(1) if m else None
+
+
 class Census:
     def __init__(self, label: str, info: ClassInfo) -> None:
         self.label, self.info = label, info
         self.how: dict[str, str] = {}
         self.detail: dict[str, str] = {}
+        self.srcs: dict[str, list[str]] = {}      # field -> fields of the SOURCE object the expression reads
+        self.builder = 'ctor'                       # ctor | shallow (attrs.evolve / copy.copy: unspecified fields shared)
 
-    def set(self, field: str, how: str, expr: ast.AST | str) -> None:
+    def set(self, field: str, how: str, expr: ast.AST | str, srcs: Optional[list[str]] = None) -> None:
         if field not in self.info.fields:
             raise TranslateError(f'{self.label}: copy stores unknown field {field}')
         self.how[field] = how
         self.detail[field] = expr if isinstance(expr, str) else ast.unparse(expr)
+        self.srcs[field] = list(srcs) if srcs is not None else []
 
     def rows(self) -> list[tuple[str, str, str]]:
         return [(f, kind_of(self.info.name, f, self.info.ann.get(f)), self.how.get(f, 'HMissing')) for f in self.info.fields]
@@ -265,6 +299,8 @@ class CopyAnalysis:
         self.tree, self.classes = tree, classes
         self.censuses: list[Census] = []
         self.copy_values_how: Optional[str] = None
+        self.src_class: str = ''          # class of the object `src` names in the expression being classified
+        self.rebind: dict[str, ast.expr] = {}   # `param = self.X` re-bindings of the method being analysed (sources only)
 
     # classification of an expression that reads from `src` (usually self): returns one of
     # share / deep / shallow / ctx / param / const
@@ -314,12 +350,24 @@ class CopyAnalysis:
             if isinstance(fn, ast.Name) and fn.id in self.classes:
                 self.ctor_census(f'{fn.id}_in_{label}', fn.id, e, src, env, params, [])
                 return 'deep-ctor'
+            if ast.unparse(fn) in SHALLOW_BUILDERS and len(e.args) == 1 and _self_attr(e.args[0], src) is not None:
+                f0 = _self_attr(e.args[0], src)
+                ann0 = (self.classes[self.src_class].ann.get(f0) or '') if self.src_class in self.classes else ''
+                ecls0 = ann0.replace("'", '').replace('Optional[', '').rstrip(']')
+                if ecls0 not in self.classes or '__copy__' in {n.name for n in self.classes[ecls0].node.body if isinstance(n, ast.FunctionDef)}:
+                    raise TranslateError(f'{label}: class of `{ast.unparse(e.args[0])}` unknown for `{ast.unparse(e)[:50]}`')
+                self.shallow_census(f'{ecls0}_in_{label}_{f0}', ecls0, e, ast.unparse(e.args[0]), params, src_expr=e.args[0])
+                return 'deep-ctor'
             raise TranslateError(f'{label}: unrecognised call `{ast.unparse(e)}`')
         if isinstance(e, (ast.ListComp, ast.DictComp)):
             if len(e.generators) != 1 or e.generators[0].ifs:
                 raise TranslateError(f'{label}: unrecognised comprehension `{ast.unparse(e)}`')
             g = e.generators[0]
             it = g.iter
+            partial = False
+            if isinstance(it, ast.Subscript) and isinstance(it.slice, ast.Slice) and _self_attr(it.value, src) is not None:
+                # a slice of the field: only part of the elements is carried over
+                it, partial = it.value, True
             ok_iter = _self_attr(it, src) is not None or (
                 isinstance(it, ast.Call) and isinstance(it.func, ast.Attribute) and it.func.attr in ('values', 'items')
                 and _self_attr(it.func.value, src) is not None)
@@ -332,6 +380,8 @@ class CopyAnalysis:
             else:
                 raise TranslateError(f'{label}: comprehension target `{ast.unparse(g.target)}`')
             elt = e.elt if isinstance(e, ast.ListComp) else e.value
+            if partial:
+                return 'partial'
             if isinstance(elt, ast.Name) and elt.id == var:
                 return 'shallow'
             if isinstance(elt, ast.Call) and isinstance(elt.func, ast.Attribute) and elt.func.attr == 'copy' \
@@ -340,9 +390,15 @@ class CopyAnalysis:
             if isinstance(elt, ast.Call) and isinstance(elt.func, ast.Name) and elt.func.id in self.classes:
                 self.ctor_census(f'{elt.func.id}_in_{label}', elt.func.id, elt, var, {}, params, [])
                 return 'deep'
-            if isinstance(elt, ast.Call) and ast.unparse(elt.func) in ('attrs.evolve', 'copy.copy') and len(elt.args) == 1 \
-                    and isinstance(elt.args[0], ast.Name) and elt.args[0].id == var and not elt.keywords:
-                return 'deep-flat'
+            if isinstance(elt, ast.Call) and ast.unparse(elt.func) in SHALLOW_BUILDERS and len(elt.args) == 1 \
+                    and isinstance(elt.args[0], ast.Name) and elt.args[0].id == var:
+                # a shallow builder: a new object that SHARES every field not given as a keyword
+                itf = _self_attr(it, src) or _self_attr(it.func.value, src)  # type: ignore[union-attr]
+                ecls = elem_class(self.classes[self.src_class].ann.get(itf)) if self.src_class in self.classes else None
+                if ecls is None or ecls not in self.classes:
+                    raise TranslateError(f'{label}: element class of `{ast.unparse(it)}` unknown for `{ast.unparse(elt)[:50]}`')
+                self.shallow_census(f'{ecls}_in_{label}', ecls, elt, var, params)
+                return 'deep'
             raise TranslateError(f'{label}: unrecognised comprehension element `{ast.unparse(elt)}`')
         raise TranslateError(f'{label}: unrecognised expression `{ast.unparse(e)}`')
 
@@ -354,8 +410,8 @@ class CopyAnalysis:
             if wrap == 'newid' or kind in ('KId', 'KCtx'):
                 return 'HNewId' if kind != 'KCtx' else 'HCtx'
             return 'HMissing'          # an unrelated parameter: the original's value is not carried over
-        if arg == 'const':
-            return 'HMissing'
+        if arg in ('const', 'partial'):
+            return 'HMissing'          # (partial: built from a slice of the field — the value is not carried over whole)
         if arg == 'copycall':
             # x.copy(): the library's own deep copy for objects; for builtin containers a shallow copy
             arg = 'shallow' if kind.startswith('KCont') else 'deep'
@@ -382,15 +438,55 @@ class CopyAnalysis:
             if kw.arg is None or kw.arg not in info.params + info.kwonly or kw.arg in bound:
                 raise TranslateError(f'{label}: bad keyword {kw.arg}')
             bound[kw.arg] = kw.value
+        saved, self.src_class = self.src_class, cname
         for p, a in bound.items():
             if p not in info.feeds:
                 if cname == 'Output' and p == 'only_once':
                     continue
                 raise TranslateError(f'{label}: constructor parameter {p} feeds no field')
             field, wrap = info.feeds[p]
-            cen.set(field, self.final_how(info, field, self.classify(a, src, env, params, label), wrap, label), a)
+            cen.set(field, self.final_how(info, field, self.classify(a, src, env, params, label), wrap, label), a,
+                    src_reads(a, src, {**self.rebind, **env}))
         for field, e in post:
-            cen.set(field, self.final_how(info, field, self.classify(e, src, env, params, label), 'direct', label), e)
+            cen.set(field, self.final_how(info, field, self.classify(e, src, env, params, label), 'direct', label), e,
+                    src_reads(e, src, {**self.rebind, **env}))
+        self.src_class = saved
+        self.censuses.append(cen)
+        return cen
+
+    def shallow_census(self, label: str, cname: str, call: ast.Call, src: str, params: set[str],
+                       src_expr: Optional[ast.expr] = None, post: Optional[list[tuple[str, ast.expr]]] = None,
+                       env: Optional[dict[str, ast.expr]] = None) -> Census:
+        """`attrs.evolve(x, f=...)` / `copy.copy(x)`: a new object of x's class in which every field NOT given as a
+        keyword is the very same reference as in x (HShare, built from the field itself); keyword fields are
+        classified like constructor arguments."""
+        info = self.classes[cname]
+        cen = Census(label, info)
+        cen.builder = 'shallow'
+        through_ctor = ast.unparse(call.func) != 'copy.copy'
+        for f in info.fields:
+            kind = kind_of(info.name, f, info.ann.get(f))
+            # attrs.evolve / dataclasses.replace call the constructor with the current value of every field that is
+            # not given: converters (`set`, `list`) and ID allocation run again; copy.copy shares the reference
+            wrap = info.feeds.get(f, (f, 'direct'))[1] if through_ctor and info.feeds.get(f, (f,))[0] == f else 'direct'
+            how = 'HCtx' if kind == 'KCtx' else self.final_how(info, f, 'share', wrap, label)
+            cen.set(f, how, f'{src}.{f}   (not given to {ast.unparse(call.func)}: current value{", through the constructor" if wrap != "direct" else ""})', [f])
+        saved, self.src_class = self.src_class, cname
+        env = env or {}
+        if src_expr is not None and call.keywords:
+            raise TranslateError(f'{label}: keywords on a shallow builder of an attribute are not supported')
+        for kw in call.keywords:
+            if kw.arg is None:
+                raise TranslateError(f'{label}: **kwargs on a shallow builder')
+            if kw.arg not in info.feeds:
+                raise TranslateError(f'{label}: shallow builder keyword {kw.arg} feeds no field')
+            field, wrap = info.feeds[kw.arg]
+            cen.set(field, self.final_how(info, field, self.classify(kw.value, src, env, params, label), wrap, label), kw.value,
+                    src_reads(kw.value, src, {**self.rebind, **env}))
+        for field, e in (post or []):
+            cen.set(field, self.final_how(info, field, self.classify(e, src, env, params, label), 'direct', label), e,
+                    src_reads(e, src, {**self.rebind, **env}))
+        self.src_class = saved
         self.censuses.append(cen)
         return cen
 
@@ -405,12 +501,18 @@ class CopyAnalysis:
         newvar: Optional[str] = None
         post: list[tuple[str, ast.expr]] = []
         raw_new = False
+        self.rebind = {}
 
         def is_ctor(e: ast.expr) -> bool:
             return isinstance(e, ast.Call) and isinstance(e.func, ast.Name) and e.func.id == cname
 
         def is_new(e: ast.expr) -> bool:
             return isinstance(e, ast.Call) and ast.unparse(e.func) == f'{cname}.__new__'
+
+        def is_shallow(e: ast.expr) -> bool:
+            return isinstance(e, ast.Call) and ast.unparse(e.func) in SHALLOW_BUILDERS and len(e.args) == 1 \
+                and isinstance(e.args[0], ast.Name) and e.args[0].id == 'self'
+        shallow: list[ast.Call] = []
 
         def scan(body: list[ast.stmt], guarded: bool) -> None:
             nonlocal call, newvar, raw_new
@@ -424,6 +526,8 @@ class CopyAnalysis:
                         raise TranslateError(f'{label}: bare return')
                     if is_ctor(st.value):
                         call = st.value  # type: ignore[assignment]
+                    elif is_shallow(st.value):
+                        shallow.append(st.value)  # type: ignore[arg-type]
                     elif isinstance(st.value, ast.Name) and st.value.id == newvar:
                         pass
                     else:
@@ -432,15 +536,17 @@ class CopyAnalysis:
                 if isinstance(st, ast.Assign) and len(st.targets) == 1:
                     t = st.targets[0]
                     if isinstance(t, ast.Name):
-                        if is_ctor(st.value) or is_new(st.value):
+                        if is_ctor(st.value) or is_new(st.value) or is_shallow(st.value):
                             newvar = t.id
                             if is_ctor(st.value):
                                 call = st.value  # type: ignore[assignment]
+                            elif is_shallow(st.value):
+                                shallow.append(st.value)  # type: ignore[arg-type]
                             else:
                                 raw_new = True
                         elif t.id in params:
                             # re-binding a parameter (e.g. `des_id = self.id`, `vmf = self.vmf`): still a parameter
-                            pass
+                            self.rebind[t.id] = st.value
                         else:
                             env[t.id] = st.value
                         continue
@@ -470,14 +576,21 @@ class CopyAnalysis:
                     continue
                 raise TranslateError(f'{label}: unsupported statement `{ast.unparse(st)[:60]}` (line {st.lineno})')
         scan(fn.body, False)
+        if len(shallow) + (call is not None) + raw_new > 1:
+            raise TranslateError(f'{label}: more than one way of building the copy')
+        if shallow:
+            return self.shallow_census(label, cname, shallow[0], 'self', params, post=post, env=env)
         if call is None and not raw_new:
             raise TranslateError(f'{label}: no constructor call found')
         if call is not None:
             return self.ctor_census(label, cname, call, 'self', env, params, post)
         info = self.classes[cname]
         cen = Census(label, info)
+        saved, self.src_class = self.src_class, cname
         for field, e in post:
-            cen.set(field, self.final_how(info, field, self.classify(e, 'self', env, params, label), 'direct', label), e)
+            cen.set(field, self.final_how(info, field, self.classify(e, 'self', env, params, label), 'direct', label), e,
+                    src_reads(e, 'self', {**self.rebind, **env}))
+        self.src_class = saved
         self.censuses.append(cen)
         return cen
 
@@ -486,12 +599,15 @@ class CopyAnalysis:
         rets = [s for s in fn.body if isinstance(s, ast.Return)]
         if len(rets) != 1 or rets[0].value is None or len([s for s in fn.body if not (isinstance(s, ast.Expr) and isinstance(s.value, ast.Constant))]) != 1:
             raise TranslateError('EntityFixup.copy_values: unrecognised body')
+        self.src_class = 'EntityFixup'
         how = self.classify(rets[0].value, 'self', {}, set(), 'EntityFixup_copy_values')
+        self.src_class = ''
         self.copy_values_how = 'deep' if how in ('deep', 'deep-flat') else 'shallow'
         info = self.classes['EntityFixup']
         cen = Census('EntityFixup_copy_values', info)
-        cen.set('_fixup', 'HDeep' if self.copy_values_how == 'deep' else 'HShallow', rets[0].value)
-        cen.set('_matcher', 'HShare', 'rebuilt lazily by the constructor (cache)')
+        cen.set('_fixup', 'HDeep' if self.copy_values_how == 'deep' else 'HShallow', rets[0].value,
+                src_reads(rets[0].value, 'self', {}))
+        cen.set('_matcher', 'HShare', 'rebuilt lazily by the constructor (cache)', ['_matcher'])
         self.censuses.append(cen)
 
 
@@ -500,9 +616,32 @@ def kv_receivers(tree: ast.Module) -> dict:
     cls = _find_class(tree, 'Keyvalues')
     out: dict = {}
 
-    def appends(fn: ast.FunctionDef) -> list[tuple[bool, str, bool, int]]:
-        """(inside the `isinstance(other, Keyvalues) and ...` single branch?, receiver, argument copied?, line)"""
+    def is_copy_call(arg: ast.expr) -> bool:
+        return isinstance(arg, ast.Call) and isinstance(arg.func, ast.Attribute) and arg.func.attr == 'copy' and not arg.args
+
+    def appends(fn: ast.FunctionDef, via: dict[str, bool]) -> list[tuple[Optional[bool], str, bool, int]]:
+        """Every site that adds children: (inside the `isinstance(other, Keyvalues) and ...` single branch?,
+        receiver, is the added child a fresh copy?, line).  A site is `<recv>._value.append/extend(x)` or a call of
+        the public `<recv>.append/extend(x)`; the child is a fresh copy when x is `y.copy()` or when the public
+        method called copies its argument at every one of its own sites (`via`)."""
         res = []
+        # local names that only ever hold a fresh copy (`tmp = x.copy()`)
+        binds: dict[str, list[ast.expr]] = {}
+        for n in ast.walk(fn):
+            if isinstance(n, ast.Assign):
+                for t in n.targets:
+                    for nm in ast.walk(t):
+                        if isinstance(nm, ast.Name):
+                            binds.setdefault(nm.id, []).append(n.value if isinstance(t, ast.Name) else ast.Constant(value=None))
+            elif isinstance(n, (ast.For, ast.AugAssign, ast.AnnAssign, ast.NamedExpr, ast.comprehension)):
+                for nm in ast.walk(n.target):
+                    if isinstance(nm, ast.Name):
+                        binds.setdefault(nm.id, []).append(ast.Constant(value=None))
+        params = {a.arg for a in fn.args.args + fn.args.kwonlyargs}
+        local_copies = {k for k, vs in binds.items() if k not in params and vs and all(is_copy_call(v) for v in vs)}
+
+        def is_fresh(arg: ast.expr) -> bool:
+            return is_copy_call(arg) or (isinstance(arg, ast.Name) and arg.id in local_copies)
 
         def walk(body: list[ast.stmt], single: Optional[bool]) -> None:
             for st in body:
@@ -514,23 +653,42 @@ def kv_receivers(tree: ast.Module) -> dict:
                     else:
                         walk(st.body, single)
                         walk(st.orelse, single)
-                elif isinstance(st, ast.For):
+                elif isinstance(st, (ast.For, ast.While, ast.With)):
                     walk(st.body, single)
+                    walk(getattr(st, 'orelse', []), single)
+                elif isinstance(st, ast.Try):
+                    raise TranslateError(f'Keyvalues.{fn.name}: try statement (line {st.lineno})')
+                elif isinstance(st, (ast.Assign, ast.AugAssign, ast.AnnAssign)):
+                    tgt = ast.unparse(st.targets[0] if isinstance(st, ast.Assign) else st.target)
+                    if '_value' in tgt:
+                        raise TranslateError(f'Keyvalues.{fn.name}: assignment to `{tgt}` (line {st.lineno})')
                 elif isinstance(st, ast.Expr) and isinstance(st.value, ast.Call):
                     c = st.value
                     f = ast.unparse(c.func)
-                    if f.endswith('._value.append') or f.endswith('._value.extend'):
-                        recv = f.split('.')[0]
+                    parts = f.split('.')
+                    public = len(parts) == 2 and parts[1] in ('append', 'extend') and parts[0] in ('self', 'copy')
+                    if f.endswith('._value.append') or f.endswith('._value.extend') or f.endswith('._value.insert') or public:
+                        recv = parts[0]
                         if recv not in ('self', 'copy'):
                             raise TranslateError(f'Keyvalues.{fn.name}: append to unknown receiver `{recv}` (line {st.lineno})')
+                        if len(c.args) != 1 or c.keywords:
+                            raise TranslateError(f'Keyvalues.{fn.name}: unrecognised append `{ast.unparse(c)}` (line {st.lineno})')
                         arg = c.args[0]
-                        copied = isinstance(arg, ast.Call) and isinstance(arg.func, ast.Attribute) and arg.func.attr == 'copy'
+                        copied = is_fresh(arg) or (public and via.get(parts[1], False))
                         res.append((single, 'RSelf' if recv == 'self' else 'RCopy', copied, st.lineno))
+                    elif '_value' in f and not f.startswith(('isinstance', 'warnings.')):
+                        raise TranslateError(f'Keyvalues.{fn.name}: unrecognised use of _value `{f}` (line {st.lineno})')
         walk(fn.body, None)
         return res
+    # what the public append()/extend() do with their argument (used when +/+= delegate to them)
+    via: dict[str, bool] = {}
+    for name in ('append', 'extend'):
+        sites = appends(_method(cls, name), {})
+        via[name] = bool(sites) and all(s[2] for s in sites)
+    out['public_method_copies'] = via
     for name in ('__add__', '__iadd__', 'extend'):
         fn = _method(cls, name)
-        sites = appends(fn)
+        sites = appends(fn, via)
         if name == 'extend':
             if len(sites) != 1:
                 raise TranslateError('Keyvalues.extend: expected exactly one append site')
@@ -550,7 +708,8 @@ def kv_receivers(tree: ast.Module) -> dict:
             if not ok:
                 raise TranslateError('Keyvalues.__add__: `copy = self.copy()` not found')
         out[name] = {'single': single[0][1], 'iter': it[0][1], 'ret': 'RCopy' if rets[0] == 'copy' else 'RSelf',
-                     'copied': single[0][2] and it[0][2], 'lines': [single[0][3], it[0][3]]}
+                     'copied': single[0][2] and it[0][2], 'copied_single': single[0][2], 'copied_iter': it[0][2],
+                     'lines': [single[0][3], it[0][3]]}
     return out
 
 
@@ -581,16 +740,34 @@ def translate() -> tuple[str, dict]:
     lines = ['(* GENERATED by translate/c09_copy.py from /repo/src/srctools/vmf.py, keyvalues.py. Do not edit. *)',
              'From Coq Require Import List String Bool.', 'From SV Require Import SM.StoreCopy SM.KvAdd.',
              'Import ListNotations.', 'Open Scope string_scope.', '']
-    side: dict = {'classes': labels, 'census': {}, 'kv': kv, 'digests': {}}
+    side: dict = {'classes': labels, 'census': {}, 'kv': kv, 'digests': {}, 'sources': {}, 'builder': {}}
     for c in censuses:
         rows = c.rows()
         lines.append(f'Definition census_{c.label} : census := [')
         lines.append(';\n'.join(f'  ("{f}", {k}, {h})' for f, k, h in rows))
         lines.append('].')
+        # from which fields of the source object each field of the copy is built
+        lines.append(f'Definition sources_{c.label} : list (string * list string) := [')
+        lines.append(';\n'.join('  ("%s", [%s])' % (f, '; '.join(f'"{g}"' for g in c.srcs.get(f, []))) for f, _k, _h in rows))
+        lines.append('].')
         side['census'][c.label] = [[f, k, h, c.detail.get(f, '<not set by copy>')] for f, k, h in rows]
+        side['sources'][c.label] = {f: c.srcs.get(f, []) for f, _k, _h in rows}
+        side['builder'][c.label] = c.builder
+        side.setdefault('class_of', {})[c.label] = c.info.name
     lines.append('Definition all_census : list (string * census) := [')
     lines.append(';\n'.join(f'  ("{c.label}", census_{c.label})' for c in censuses))
     lines.append('].')
+    lines.append('Definition all_sources : list (string * list (string * list string)) := [')
+    lines.append(';\n'.join(f'  ("{c.label}", sources_{c.label})' for c in censuses))
+    lines.append('].')
+    lines.append('Definition class_of_label : list (string * string) := [')
+    lines.append(';\n'.join(f'  ("{c.label}", "{c.info.name}")' for c in censuses))
+    lines.append('].')
+    cb = lambda b: 'true' if b else 'false'
+    lines += [f'Definition kv_add_single_copied : bool := {cb(kv["__add__"]["copied_single"])}.',
+              f'Definition kv_add_iter_copied : bool := {cb(kv["__add__"]["copied_iter"])}.',
+              f'Definition kv_iadd_single_copied : bool := {cb(kv["__iadd__"]["copied_single"])}.',
+              f'Definition kv_iadd_iter_copied : bool := {cb(kv["__iadd__"]["copied_iter"])}.']
     lines += [f'Definition kv_add_recv_single : recv := {kv["__add__"]["single"]}.',
               f'Definition kv_add_recv_iter : recv := {kv["__add__"]["iter"]}.',
               f'Definition kv_add_ret : recv := {kv["__add__"]["ret"]}.',
